@@ -28,7 +28,10 @@ RULE = ("names: every sequence of up to 4 segments over the alphabet A joined by
         "{'/', '\\\\', '.', ':', 'a', 'C', 'é'}; A = {'..', '.', '', 'a', 'a\\\\b', 'C:', 'sub', 'é', 'secret'} (quick) plus "
         "{'t2', 'outside'} (thorough).  Each name goes through split_template_path under both separator conventions, "
         "through 4 file-system / package loaders on the sandbox tree, and (random subset) through random Choice / "
-        "Prefix / Dict compositions via get_source and load.  roots x pieces for join/normpath: every root up to length "
+        "Prefix / Dict compositions via get_source and load; histories up to length 4 (thorough 5) on 5 compositions in which "
+        "lookups (get_source / load) alternate with additions / deletions in the member DictLoaders, the loader object living "
+        "through the history; compatibility look-alikes of '.', '..', '/', '\\\\' (U+2025, U+FF0E, U+2024, U+FE52, U+FF0F, U+FF3C) as "
+        "segments up to length 3.  roots x pieces for join/normpath: every root up to length "
         "3 over {'/', '\\\\', '.', ':', 'a'} plus UNC / drive forms.  distinct = (kind, loader, name); non-trivial = "
         "the name has a '..' segment, a backslash, a drive-like or empty segment, or resolves to a file in a "
         "sub-directory / second search path / non-first leaf.")
@@ -99,7 +102,8 @@ def spec_fs(search_dirs, name):
 
 
 # ------------------------------------------------------------------------------------------- loaders
-def build_real(jinja2, sb, desc):
+def build_real(jinja2, sb, desc, reg=None):
+    """reg (optional list) collects the mapping objects of the DictLoader leaves in pre-order"""
     k = desc[0]
     if k == "F":
         return jinja2.FileSystemLoader([sb + sp for sp in desc[1]])
@@ -109,13 +113,18 @@ def build_real(jinja2, sb, desc):
         d = {}
         for n, c in desc[1]:
             d.setdefault(n, f"id:{c}")
+        if reg is not None:
+            reg.append(d)
         return jinja2.DictLoader(d)
     if k == "C":
-        return jinja2.ChoiceLoader([build_real(jinja2, sb, x) for x in desc[1]])
+        return jinja2.ChoiceLoader([build_real(jinja2, sb, x, reg) for x in desc[1]])
     if k == "X":
         m = {}
         for p, l in desc[2]:
-            m.setdefault(p, build_real(jinja2, sb, l))
+            if p in m:
+                build_real(jinja2, sb, l, [] if reg is not None else None)
+            else:
+                m[p] = build_real(jinja2, sb, l, reg)
         return jinja2.PrefixLoader(m, delimiter=desc[1])
     raise AssertionError(desc)
 
@@ -356,7 +365,12 @@ def run(ctx):
 
     alphabet = ["..", ".", "", "a", "a\\b", "C:", "sub", "é", "secret"] + ctx.size([], ["t2", "outside"])
     names = list(names_exhaustive(alphabet, 4))
-    chars = ["/", "\\", ".", ":", "a", "C", "é"]
+    # compatibility look-alikes of '.', '..', '/', '\\' (they become the real thing under NFKC / NFKD normalisation; to
+    # split_template_path and to the file system they are ordinary characters)
+    lookalike = ["\u2025", "\uff0e\uff0e", "\u2024\u2024", "\uff0e", "\ufe52\ufe52", "a\uff3cb", "\uff0fsecret", "\u2025\uff0fsecret",
+                 "secret", "sub", "a"]
+    names += list(names_exhaustive(lookalike, ctx.size(3, 4)))
+    chars = ["/", "\\", ".", ":", "a", "C", "é", "\u2025", "\uff0e", "\uff0f", "\uff3c", "\u2024"]
     rnd_names = ["".join(ctx.rng.choice(chars) for _ in range(ctx.rng.randint(0, 8))) for _ in range(ctx.size(3000, 30000))]
     for n in range(0, 5):
         rnd_names += ["".join(t) for t in itertools.product(["/", "\\", ".", "a"], repeat=n)]
@@ -489,11 +503,11 @@ def fs_line(desc, name, cv="p"):
     return f"G {cv} {len(FILES)} {files} {enc_loader(desc)} {enc(name)}"
 
 
-def check_one(ctx, jinja2, env, sb, desc, loader, name, model_line, how):
+def check_one(ctx, jinja2, env, sb, desc, loader, name, model_line, how, case=None):
     m = model_line[2:].split(" | S ")[0]
     s = model_line.split(" | S ")[1]
     impl, opens = real_get(jinja2, env, loader, name, sb, how)
-    case = {"kind": "fs", "loader": desc, "name": name, "how": how}
+    case = case or {"kind": "fs", "loader": desc, "name": name, "how": how}
     ctx.case(sample=dict(case, result=impl) if len(ctx.samples) < 5 and impl.startswith("F") and "/" in name else None,
              key=(how, repr(desc), name) if nontrivial(name, impl) else None)
     ctx.count(f"fs_{how}_{'found' if impl.startswith('F') else 'notfound'}")
@@ -536,6 +550,100 @@ def run_fs(ctx, jinja2, sb, names, rnd_names):
     out = ctx.driver("ldr", [fs_line(d, n) for d, _, n, _ in todo])
     for (desc, ld, n, how), ml in zip(todo, out):
         check_one(ctx, jinja2, env, sb, desc, ld, n, ml, how)
+    run_mut(ctx, jinja2, sb)
+
+
+# ------------------------------------------------------------------------------------------- histories: loader contents change
+MUT_COMPS = [
+    (("C", [("D", []), ("D", [("a", 41)])]), "a"),
+    (("C", [("D", []), ("F", ["/t1"])]), "a"),
+    (("X", "/", [("p", ("C", [("D", []), ("D", [("a", 42)])]))]), "p/a"),
+    (("C", [("C", [("D", []), ("D", [("a", 43)])]), ("D", [("a", 44), ("b", 45)])]), "a"),
+    (("C", [("D", [("a", 46)]), ("X", "::", [("", ("D", [("a", 47)]))])]), "a"),
+]
+MUT_OPS = ["g", "l", "+0", "-0", "+1", "-1"]     # get_source / load of the name; add / delete name 'a' in Dict leaf 0 / 1
+
+
+def dict_leaves(desc, out=None):
+    out = [] if out is None else out
+    if desc[0] == "D":
+        out.append(desc)
+    elif desc[0] == "C":
+        for x in desc[1]:
+            dict_leaves(x, out)
+    elif desc[0] == "X":
+        for _, l in desc[2]:
+            dict_leaves(l, out)
+    return out
+
+
+def thaw(desc):
+    """deep copy with lists (mutable)"""
+    if desc[0] == "D":
+        return ["D", [list(x) for x in desc[1]]]
+    if desc[0] == "C":
+        return ["C", [thaw(x) for x in desc[1]]]
+    if desc[0] == "X":
+        return ["X", desc[1], [[p, thaw(l)] for p, l in desc[2]]]
+    return list(desc)
+
+
+def mut_apply_desc(desc, op):
+    leaves = dict_leaves(desc)
+    i = int(op[1])
+    if i >= len(leaves):
+        return
+    entries = leaves[i][1]
+    entries[:] = [e for e in entries if e[0] != "a"]
+    if op[0] == "+":
+        entries.append(["a", 50 + i])
+
+
+def run_history(ctx, jinja2, env, sb, ci, ops, lines=None):
+    """one history on one composition: the real loader object lives through the whole history, the model is the
+    stateless get_source on the description as it is at each lookup"""
+    comp, name = MUT_COMPS[ci]
+    desc = thaw(comp)
+    steps = []
+    for o in ops:
+        if o in ("g", "l"):
+            steps.append((o, thaw(desc)))
+        else:
+            mut_apply_desc(desc, o)
+            steps.append((o, None))
+    if lines is None:
+        return [fs_line(snap, name) for o, snap in steps if snap is not None]
+    reg = []
+    loader = build_real(jinja2, sb, thaw(comp), reg)
+    li = 0
+    for si, (o, snap) in enumerate(steps):
+        if snap is None:
+            i = int(o[1])
+            if i < len(reg):
+                reg[i].pop("a", None)
+                if o[0] == "+":
+                    reg[i]["a"] = f"id:{50 + i}"
+            continue
+        check_one(ctx, jinja2, env, sb, snap, loader, name, lines[li], "get_source" if o == "g" else "load",
+                  case={"kind": "mut", "composition": ci, "ops": list(ops), "step": si, "name": name})
+        li += 1
+
+
+def run_mut(ctx, jinja2, sb, only=None):
+    env = jinja2.Environment(cache_size=0)
+    L = ctx.size(4, 5)
+    hist = [(ci, list(h)) for ci in range(len(MUT_COMPS)) for n in range(1, L + 1) for h in itertools.product(MUT_OPS, repeat=n)
+            if h[-1] in ("g", "l")]
+    if only is not None:
+        hist = [(only["composition"], list(only["ops"]))]
+    all_lines, spans = [], []
+    for ci, ops in hist:
+        ls = run_history(ctx, jinja2, env, sb, ci, ops)
+        spans.append((len(all_lines), len(ls)))
+        all_lines += ls
+    out = ctx.driver("ldr", all_lines) if all_lines else []
+    for (ci, ops), (a, n) in zip(hist, spans):
+        run_history(ctx, jinja2, env, sb, ci, ops, out[a:a + n])
 
 
 def replay(ctx, data):
@@ -579,6 +687,16 @@ def replay(ctx, data):
             sys.path.remove(sb + "/pkgs")
             for k2 in [k2 for k2 in sys.modules if k2 == "c28pkg" or k2.startswith("c28pkg.")]:
                 del sys.modules[k2]
+            shutil.rmtree(sb, ignore_errors=True)
+    elif k == "mut":
+        sb = make_sandbox(ctx)
+        sys.path.insert(0, sb + "/pkgs")
+        try:
+            run_mut(ctx, jinja2, sb, only=case)
+            print("violations on this history:", [(v[0].get("step"), v[1][:160]) for v in ctx.violations] or None,
+                  "mismatches:", ctx.mismatches[:3] or None)
+        finally:
+            sys.path.remove(sb + "/pkgs")
             shutil.rmtree(sb, ignore_errors=True)
     else:
         print("replay: unknown case kind", k)
